@@ -108,23 +108,39 @@ impl Spec {
     }
 
     pub fn build(&self) -> Result<Result<Automaton, Error>, String> {
+        self.build_with(|l| l)
+    }
+
+    /// the same calls with the labels mapped into another state type (the builder is generic in it)
+    pub fn build_with<T: Eq + std::hash::Hash + Clone>(&self, f: impl Fn(u32) -> T) -> Result<Result<Automaton, Error>, String> {
         catch(|| {
-            let mut b: AutomatonBuilder<u32> = AutomatonBuilder::new(&self.init);
+            let mut b: AutomatonBuilder<T> = AutomatonBuilder::new(&f(self.init));
             for c in &self.calls {
                 match c {
                     Call::Trans(s, (x, y), n) => {
-                        b.add_transition(s, &CharSet::range(*x, *y), n);
+                        b.add_transition(&f(*s), &CharSet::range(*x, *y), &f(*n));
                     }
                     Call::Default(s, n) => {
-                        b.set_default_successor(s, n);
+                        b.set_default_successor(&f(*s), &f(*n));
                     }
                     Call::Final(s) => {
-                        b.mark_final(s);
+                        b.mark_final(&f(*s));
                     }
                 }
             }
             b.build()
         })
+    }
+}
+
+/// A state type whose `Hash` is lawful (equal values hash equally) but nearly useless: many different
+/// labels share a hash. The builder must tell states apart by `Eq`, not by their hash.
+#[derive(Clone, Debug, PartialEq, Eq)]
+pub struct WeakLabel(pub u32, pub String);
+
+impl std::hash::Hash for WeakLabel {
+    fn hash<H: std::hash::Hasher>(&self, state: &mut H) {
+        (self.0 % 2).hash(state);
     }
 }
 
